@@ -113,6 +113,13 @@ func (env *Env) expr(e ast.Expr) (string, error) {
 		}
 		return "", fmt.Errorf("unknown selector %s", exprKey(x))
 	case *ast.UnaryExpr:
+		if x.Op == token.AND {
+			// address-of a named location (e.g. the operand of an atomic load), only when the caller names it
+			if n, ok := env.Names[exprKey(x)]; ok {
+				return n, nil
+			}
+			return "", fmt.Errorf("unsupported address-of %s", exprKey(x))
+		}
 		s, err := env.expr(x.X)
 		if err != nil {
 			return "", err
